@@ -4,7 +4,7 @@
    Model/Digest.v (digest.go + an independent transcription of RFC 7616 section 3.4).
    The hash function is a universally quantified variable H everywhere. *)
 From Coq Require Import Permutation.
-From ReqV Require Import Model.ProxyAuth Proofs.ProxyAuthProofs Model.AuthReexec Proofs.AuthReexecProofs.
+From ReqV Require Import Model.ProxyAuth Proofs.ProxyAuthProofs Model.AuthReexec Proofs.AuthReexecProofs Model.FormResend Proofs.FormResendProofs.
 From ReqV Require Import Lib.Bytes Model.Base64 Model.AuthParam Model.Digest
      Proofs.Base64Proofs Proofs.AuthParamProofs Proofs.DigestProofs Proofs.ChallengeTextProofs
      Proofs.DigestVerifyProofs.
@@ -137,6 +137,50 @@ Theorem C20_value_compare_refuted :
   rqv_run (mkRqv None None None) ops = [Some (basic_header (bs "u") (bs "old")); Some (basic_header (bs "u") (bs "new"))].
 Proof. exact value_compare_refuted. Qed.
 Print Assumptions C20_value_compare_refuted.
+
+(* ----- clients and their clones ----- *)
+
+(* Client.Headers is a map each client owns, Clone copies it.  For ALL sequences of credential
+   setters on any client, Clone of any client and requests from any client (every index naming
+   an existing client): each request carries the credentials of ITS client - the last set on it,
+   or what its parent had when it was cloned *)
+Theorem C20_clones_transmit_own : forall ops,
+  ops_ok 1 ops = true -> cl_run cl_init ops = cls_run [None] ops.
+Proof. exact clones_from_new. Qed.
+Print Assumptions C20_clones_transmit_own.
+
+(* a clone SHARING the header map sends the clone's credentials from the original *)
+Theorem C20_shared_header_map_refuted :
+  let ops := [KBasic 0 (bs "alice") (bs "a-pw"); KClone 0; KBasic 1 (bs "bob") (bs "b-pw"); KSend 0; KSend 1] in
+  cl_run cl_init ops = [Some (basic_header (bs "alice") (bs "a-pw")); Some (basic_header (bs "bob") (bs "b-pw"))] /\
+  cl_run_with true cl_init ops = [Some (basic_header (bs "bob") (bs "b-pw")); Some (basic_header (bs "bob") (bs "b-pw"))].
+Proof. exact shared_header_map_refuted. Qed.
+Print Assumptions C20_shared_header_map_refuted.
+
+(* ----- the body set up again for the digest re-send (form data) ----- *)
+
+(* parseRequestBody merges the client-level form data once (Request.clientFormDataMerged):
+   setting the body up again - for the digest re-send, any number of times - leaves the form as
+   it was first transmitted: the request's fields followed by the client's, once *)
+Theorem C20_form_resend_same_fields : forall client req,
+  form_resend client req = form_first client req /\ form_first client req = req ++ client.
+Proof. exact resend_same_fields. Qed.
+Print Assumptions C20_form_resend_same_fields.
+
+Theorem C20_body_setup_idempotent : forall client s n,
+  Nat.iter (S n) (body_setup client) s = body_setup client s.
+Proof. exact setup_n_times. Qed.
+Print Assumptions C20_body_setup_idempotent.
+
+(* deciding by the retry attempt instead adds the client's fields a second time within attempt 0 *)
+Theorem C20_merge_by_attempt_refuted :
+  let client := [(bs "tenant", bs "acme")] in
+  let req := [(bs "k", bs "v")] in
+  fm_fields (body_setup_by_attempt 0 client (body_setup_by_attempt 0 client (mkForm req false)))
+    = [(bs "k", bs "v"); (bs "tenant", bs "acme"); (bs "tenant", bs "acme")] /\
+  form_resend client req = [(bs "k", bs "v"); (bs "tenant", bs "acme")].
+Proof. exact by_attempt_refuted. Qed.
+Print Assumptions C20_merge_by_attempt_refuted.
 
 (* connectMethod.key, proxyAuth and basicAuth as regenerated from the source are the ones modelled *)
 Theorem C20_proxy_source_as_modelled :
